@@ -369,7 +369,9 @@ impl Bindgen for FunctionBindgen<'_, '_> {
                 let mut result = format!("{name}::empty()");
                 for (i, op) in operands.iter().enumerate() {
                     result.push_str(&format!(
-                        " | {name}::from_bits_retain((({op} as {repr}) << {}) as _)",
+                        // go through `u32` so that a set bit 31 of one core
+                        // word is not sign-extended into the next words
+                        " | {name}::from_bits_retain((({op} as u32 as {repr}) << {}) as _)",
                         i * 32
                     ));
                 }
